@@ -1,5 +1,8 @@
 import DaskModel.Lemmas.LegacyOpt
 import DaskModel.Lemmas.Subs
+import DaskModel.Lemmas.SpecSubst
+import DaskModel.Lemmas.SpecFuse
+import DaskModel.Lemmas.FusedName
 /-!
 # C09 — low-level graph optimisations preserve requested values
 
@@ -201,5 +204,163 @@ example : subs (.str "a") (.int 1) (.tuple [.fn 0, .dict [(.str "x", .str "a")],
 example : cull [(.str "x", .int 1), (.str "y", .tuple [.fn 0, .str "x"]), (.str "out", .tuple [.fn 1, .str "x", .int 10])]
     [.str "out"] = some ([(.str "out", .tuple [.fn 1, .str "x", .int 10]), (.str "x", .int 1)],
                          [(.str "out", [.str "x"]), (.str "x", [])]) := by decide
+
+/-! ## task-spec passes (dask/_task_spec.py): `cull`, `GraphNode.substitute`, `resolve_aliases`, `GraphNode.fuse`,
+`fuse_linear_task_spec`
+
+Model: Model/SpecOpt.lean. "Same values" is stated with `Computes g cache k v` = *some evaluation depth of the
+dependency recursion yields `v`* (the least fixpoint of the graph's equations — what `execute_graph` computes on a DAG;
+`cache` holds the keys outside the graph), resp. `ComputesF` for graphs that contain fused tasks
+(`_execute_subgraph`). `Computes`/`ComputesF` are functional (`Computes.unique`). -/
+
+/-- **task-spec `cull`**: the result contains every requested key of the graph, is a sub-graph, is closed under the
+    dependencies that exist in the graph, and every kept key evaluates exactly as before — at every depth, for every
+    cache. -/
+theorem spec_cull_preserves_eval {g out : NGraph} {keys : List Obj} (h : cullSpec g keys = some out)
+    (cache : Obj → Option Obj) :
+    (∀ k ∈ keys, (g.lookup k).isSome → (out.lookup k).isSome) ∧
+    (∀ k n, out.lookup k = some n → g.lookup k = some n) ∧
+    (∀ k n, out.lookup k = some n → ∀ d ∈ n.deps, (g.lookup d).isSome → (out.lookup d).isSome) ∧
+    ∀ fuel k, (out.lookup k).isSome → evalKeyN out cache fuel k = evalKeyN g cache fuel k := by
+  unfold cullSpec at h
+  split at h
+  · cases h
+    exact ⟨fun _ _ h => h, fun _ _ h => h, fun _ _ _ _ _ h => h, fun _ _ _ => rfl⟩
+  · simp only [Option.map_eq_some_iff] at h
+    obtain ⟨V, hV, rfl⟩ := h
+    obtain ⟨hreq, hcl⟩ := cullSpecLoop_closed g keys hV
+    have hsub : ∀ k n, (restrictTo g V).lookup k = some n → g.lookup k = some n := fun k n hk => by
+      rw [lookup_restrictTo] at hk
+      split at hk
+      · exact hk
+      · cases hk
+    have hclo : ∀ k n, (restrictTo g V).lookup k = some n → ∀ d ∈ n.deps, (g.lookup d).isSome →
+        ((restrictTo g V).lookup d).isSome := fun k n hk d hd hdg => by
+      rw [lookup_restrictTo] at hk
+      split at hk
+      · rename_i hkV
+        obtain ⟨n', hn', hd'⟩ := hcl k hkV
+        rw [hn'] at hk; cases hk
+        rw [lookup_restrictTo, if_pos (hd' d hd hdg)]; exact hdg
+      · cases hk
+    refine ⟨?_, hsub, hclo, evalKeyN_subgraph g _ cache hsub hclo⟩
+    intro k hk hg
+    rw [lookup_restrictTo, if_pos (hreq k hk hg)]; exact hg
+
+/-- non-vacuity: `cull({'a': Data, 'b': Task(f, a), 'c': Task(f, a)}, ['b'])` keeps `b` and `a` -/
+example : cullSpec [(.str "a", .data (.int 1)), (.str "b", .task (.call (.fn 0)) [.ref (.str "a")] []),
+    (.str "c", .task (.call (.fn 0)) [.ref (.str "a")] [])] [.str "b"] =
+    some [(.str "b", .task (.call (.fn 0)) [.ref (.str "a")] []), (.str "a", .data (.int 1))] := by decide
+
+/-- **`GraphNode.substitute` preserves the value of a node** in every environment in which each renamed dependency
+    has the value of its new key and each inlined dependency the value of the node put in its place. Through aliases,
+    `TaskRef`s, nested tasks, containers and keyword arguments. -/
+theorem substitute_preserves_eval (env : Obj → Option Obj) (σ : List (Obj × SubVal)) (n : Node)
+    (h : ∀ d ∈ n.deps, substEnv env σ d = env d) : evalNode env (substNode σ n) = evalNode env n :=
+  substNode_eval_valid env σ n h
+
+/-- … and in general: evaluating the substituted node is evaluating the node in the substituted environment -/
+theorem substitute_eval (env : Obj → Option Obj) (σ : List (Obj × SubVal)) (n : Node) :
+    evalNode env (substNode σ n) = evalNode (substEnv env σ) n := substNode_eval env σ n
+
+/-- **Inlining a dependency into every node that refers to it** (`n.substitute({a: dsk[a]})`) changes no value. -/
+theorem substitute_inline_preserves_values (g : NGraph) (a : Obj) (ta : Node) (hta : g.lookup a = some ta)
+    (cache : Obj → Option Obj) (k v : Obj) : Computes (inlineKey g a ta) cache k v ↔ Computes g cache k v :=
+  inlineKey_computes g a ta hta cache k v
+
+/-- **Renaming a dependency everywhere** (`n.substitute({old: fresh})`, with `fresh` an alias of `old`) changes no
+    value, provided `fresh` is new to the graph. -/
+theorem substitute_rename_preserves_values (g : NGraph) (old fresh : Obj) (hfk : g.lookup fresh = none)
+    (hfr : ∀ k n, g.lookup k = some n → fresh ∉ n.deps) (hne : old ≠ fresh) (cache : Obj → Option Obj)
+    (k v : Obj) (hk : k ≠ fresh) : Computes (renameDep g old fresh) cache k v ↔ Computes g cache k v :=
+  renameDep_computes g old fresh hfk hfr hne cache k v hk
+
+/-- non-vacuity: `Task(f, TaskRef('x'), Alias('y')).substitute({'x': 'z', 'y': DataNode(1)})` -/
+example : substNode [(.str "x", .key (.str "z")), (.str "y", .node (.data (.int 1)))]
+    (.task (.call (.fn 0)) [.ref (.str "x"), .alias (.str "y")] []) =
+    .task (.call (.fn 0)) [.ref (.str "z"), .data (.int 1)] [] := by decide
+example : (inlineKey [(.str "a", .data (.int 1)), (.str "b", .task (.call (.fn 0)) [.ref (.str "a")] [])] (.str "a")
+    (.data (.int 1))).lookup (.str "b") = some (.task (.call (.fn 0)) [.data (.int 1)] []) := by decide
+
+/-- **`resolve_aliases`**: for a graph with duplicate-free keys and a `dependents` mapping that gives, for every key of
+    the graph, the number of entries that refer to it (what `reverse_dict(DependenciesMapping(dsk))` gives — the mapping
+    is *not* updated by the function, the proof shows the counts stay right), every requested key stays in the graph
+    and every key that stays computes the same value as before. -/
+theorem resolve_aliases_preserves_eval (g out : NGraph) (keys : List Obj) (nd : Obj → Nat)
+    (hnodup : (g.map Prod.fst).Nodup) (hnd : ∀ x, (g.lookup x).isSome → countRefs g x = nd x)
+    (h : resolveAliases g keys nd = some out) (cache : Obj → Option Obj) :
+    (∀ k ∈ keys, (g.lookup k).isSome → (out.lookup k).isSome) ∧
+    (∀ k, (out.lookup k).isSome → (g.lookup k).isSome) ∧
+    ∀ k, (out.lookup k).isSome → ∀ v, Computes out cache k v ↔ Computes g cache k v := by
+  unfold resolveAliases at h
+  split at h
+  · cases h
+  · have hi0 : ResInv g keys nd cache g :=
+      ⟨hnodup, hnd, fun _ h => h, fun _ _ _ => Iff.rfl, fun _ _ h => h⟩
+    have hi := resolveLoop_inv g keys nd cache _ g _ _ out hi0 h
+    exact ⟨hi.reqIn, hi.sub, hi.sem⟩
+
+/-- non-vacuity: the doc-string example `{'x': 1, 'y': Alias('x'), 'z': Alias('y')}`, keys `{'z'}` ↦ `{'z': 1}` -/
+example : resolveAliases [(.str "x", .data (.int 1)), (.str "y", .alias (.str "x")), (.str "z", .alias (.str "y"))]
+    [.str "z"] (fun k => if k == .str "x" then 1 else if k == .str "y" then 1 else 0) =
+    some [(.str "z", .data (.int 1))] := by decide
+example : countRefs [(.str "x", .data (.int 1)), (.str "y", .alias (.str "x")), (.str "z", .alias (.str "y"))]
+    (.str "x") = 1 := by decide
+
+/-- **The proved checker for fused graphs** (`fuse_linear_task_spec`, `GraphNode.fuse`): if `fuseSpecOK g req out`
+    accepts — `out` is `g` with disjoint groups of entries replaced by `_execute_subgraph` tasks whose inner keys other
+    than the output are private (not requested, removed, referred to only from inside), stored under the output key or
+    under a name new to the graph with an alias left behind — then all requested keys are kept and every key present in
+    both graphs computes the same value. The harness passes every real output through the compiled checker. -/
+theorem fuse_spec_preserves_eval (g : NGraph) (req : List Obj) (out : FGraph) (hok : fuseSpecOK g req out = true)
+    (cache : Obj → Option Obj) :
+    (∀ k ∈ req, (g.lookup k).isSome → (out.lookup k).isSome) ∧
+    ∀ k, (g.lookup k).isSome → (out.lookup k).isSome → ∀ v, ComputesF out cache k v ↔ Computes g cache k v :=
+  fuseSpecOK_sound g req out hok cache
+
+/-- non-vacuity: `a → b → c` fused into one task stored under the new name `n` with `c` aliased to it … -/
+example : fuseSpecOK
+    [(.str "a", .data (.int 1)), (.str "b", .task (.call (.fn 0)) [.ref (.str "a")] []),
+     (.str "c", .task (.call (.fn 1)) [.ref (.str "b")] [])] [.str "c"]
+    [(.str "n", .fused [(.str "a", .data (.int 1)), (.str "b", .task (.call (.fn 0)) [.ref (.str "a")] []),
+                        (.str "c", .task (.call (.fn 1)) [.ref (.str "b")] [])] (.str "c") []),
+     (.str "c", .plain (.alias (.str "n")))] = true := by decide
+/-- … is rejected when the inner key `b` is requested (it would disappear) … -/
+example : fuseSpecOK
+    [(.str "a", .data (.int 1)), (.str "b", .task (.call (.fn 0)) [.ref (.str "a")] []),
+     (.str "c", .task (.call (.fn 1)) [.ref (.str "b")] [])] [.str "b"]
+    [(.str "c", .fused [(.str "b", .task (.call (.fn 0)) [.ref (.str "a")] []),
+                        (.str "c", .task (.call (.fn 1)) [.ref (.str "b")] [])] (.str "c") [.str "a"]),
+     (.str "a", .plain (.data (.int 1)))] = false := by decide
+/-- … and the fused graph evaluates `c` to `f1(f0(1))` -/
+example : evalKeyF
+    [(.str "n", .fused [(.str "a", .data (.int 1)), (.str "b", .task (.call (.fn 0)) [.ref (.str "a")] []),
+                        (.str "c", .task (.call (.fn 1)) [.ref (.str "b")] [])] (.str "c") []),
+     (.str "c", .plain (.alias (.str "n")))] (fun _ => none) 6 (.str "c") =
+    some (.app 1 [.app 0 [.int 1] []] []) := by decide
+
+/-! ### names of fused tasks (`default_fused_keys_renamer`) -/
+
+open Dask.FusedName in
+/-- **Two chains of identical operations over different data get different names** before truncation: the name ends
+    with the full key of the chain's top task. -/
+theorem fused_names_differ_on_top_key (names : List (List Char)) (firstName a b : List Char)
+    (h : concatName names firstName a = concatName names firstName b) : a = b :=
+  concatName_inj_last names firstName a b h
+
+open Dask.FusedName in
+/-- **Truncation keeps names apart exactly as well as the hash suffix does**: the keys of two names coincide iff the
+    names are equal, or both are over-long, agree on the kept prefix and have the same digest *of the full name*. -/
+theorem fused_key_collision_iff (t c : Nat) (digest : List Char → List Char) (a b : List Char) (hc : c ≤ t)
+    (hlen : ∀ x, t < c + 1 + (digest x).length) :
+    enforceLimit (some t) c digest a = enforceLimit (some t) c digest b ↔
+      a = b ∨ (t < a.length ∧ t < b.length ∧ a.take c = b.take c ∧ digest a = digest b) :=
+  enforceLimit_eq_iff t c digest a b hc hlen
+
+open Dask.FusedName in
+/-- non-vacuity (limit 6, 2-character digest): over-long names with a common prefix are told apart by the digest -/
+example : enforceLimit (some 6) 6 (fun x => x.drop 7) "abcdefgXY".toList = "abcdef-XY".toList ∧
+    enforceLimit (some 6) 6 (fun x => x.drop 7) "abcdefgZW".toList = "abcdef-ZW".toList ∧
+    enforceLimit (some 6) 6 (fun x => x.drop 7) "abc".toList = "abc".toList := by decide
 
 end Dask.C09
